@@ -629,6 +629,172 @@ theorem coupling_calls (cfg : Config) (c n : Nat) :
 
 example : itersAt exCfg 0 1 = 2 ∧ itersAt exCfg 0 2 = 3 := by decide
 
+/-! ## Coupling with the couplers' own state (`TightCoupler` bookkeeping)
+
+`Model/Schedule.lean` transcribes `TightCoupler.storePreviousIterationValue / isConverged` (counter, own
+`maxIters`, warning) and the loop of `_performTightCoupling` / `interactAllCoupled` /
+`_checkTightCouplingConvergence` over those objects (`coupledLoopS`). -/
+/-- rounds the property prescribes for a cap and an all-converged predicate: up to and including the first
+converged iteration, else the cap -/
+def roundsSpec (cap : Nat) (P : Nat → Bool) : Nat :=
+  match (List.range cap).find? P with
+  | some it => it + 1
+  | none => cap
+
+/-- the verdict of `isConverged` after `store` depends only on the two values and the tolerance — not on the
+coupler's own `maxIters` or counter — and leaves the tolerance and `maxIters` unchanged -/
+theorem isConverged_verdict (k : Coupler) (b a : Rat) :
+    ∃ w k', (k.store b).isConverged a = some (decide (absDiff a b < k.tol), w, k')
+      ∧ k'.tol = k.tol ∧ k'.maxIters = k.maxIters := by
+  unfold Coupler.isConverged Coupler.store
+  simp only []
+  by_cases h : absDiff a b < k.tol
+  · simp [h]
+  · by_cases h2 : k.numIters + 1 = k.maxIters <;> simp [h, h2]
+
+theorem checkAll_verdict (vb va : Nat → Rat) (ks : List (Nat × Coupler)) :
+    ∃ w ks', checkAll va (storeAll vb ks) = some (ks.all (fun p => decide (absDiff (va p.1) (vb p.1) < p.2.tol)), w, ks')
+      ∧ ks'.map (fun p => (p.1, p.2.tol, p.2.maxIters)) = ks.map (fun p => (p.1, p.2.tol, p.2.maxIters)) := by
+  induction ks with
+  | nil => exact ⟨0, [], by simp [storeAll, checkAll]⟩
+  | cons p rest ih =>
+    obtain ⟨w, ks', h1, h2⟩ := ih
+    obtain ⟨w0, k0, h3, h4, h5⟩ := isConverged_verdict p.2 (vb p.1) (va p.1)
+    refine ⟨(if w0 then 1 else 0) + w, (p.1, k0) :: ks', ?_, ?_⟩
+    · simp only [storeAll, List.map_cons, checkAll] at h1 ⊢
+      rw [h3]
+      simp only []
+      rw [h1]
+      simp
+    · simp [h2, h4, h5]
+
+theorem coupledLoopS_rounds (vb va : Nat → Nat → Rat) (left it : Nat) (ks : List (Nat × Coupler)) :
+    ∃ w ks', coupledLoopS vb va left it ks = some (cnt (fun j => ks.all (fun p => verdict vb va p j)) left it, w, ks')
+      ∧ ks'.map (fun p => (p.1, p.2.tol, p.2.maxIters)) = ks.map (fun p => (p.1, p.2.tol, p.2.maxIters)) := by
+  induction left generalizing it ks with
+  | zero => exact ⟨0, ks, by simp [coupledLoopS, cnt], rfl⟩
+  | succ left ih =>
+    obtain ⟨w, ks1, h1, h2⟩ := checkAll_verdict (fun n => vb n it) (fun n => va n it) ks
+    unfold coupledLoopS interactAllCoupledS
+    rw [h1]
+    simp only []
+    by_cases hc : (ks.all fun p => decide (absDiff (va p.1 it) (vb p.1 it) < p.2.tol)) = true
+    · refine ⟨w, ks1, ?_, h2⟩
+      rw [if_pos hc]
+      have : cnt (fun j => ks.all (fun p => verdict vb va p j)) (left + 1) it = 1 := by
+        unfold cnt
+        rw [List.range'_succ, List.find?_cons]
+        have : (ks.all fun p => verdict vb va p it) = true := by simpa [verdict] using hc
+        simp [this]
+      rw [this]
+    · rw [if_neg hc]
+      obtain ⟨w2, ks2, h3, h4⟩ := ih (it + 1) ks1
+      -- the predicate over ks1 equals the predicate over ks (same names and tolerances)
+      have hP : ∀ j, (ks1.all fun p => verdict vb va p j) = (ks.all fun p => verdict vb va p j) := by
+        intro j
+        have e : ∀ l : List (Nat × Coupler), (l.all fun p => verdict vb va p j)
+            = ((l.map (fun p => (p.1, p.2.tol, p.2.maxIters))).all
+                (fun q => decide (absDiff (va q.1 j) (vb q.1 j) < q.2.1))) := by
+          intro l; simp [List.all_map, verdict, Function.comp_def]
+        rw [e ks1, e ks, h2]
+      rw [h3]
+      refine ⟨w + w2, ks2, ?_, h4.trans h2⟩
+      have hc' : (ks.all fun p => verdict vb va p it) = false := by
+        have : ¬ (ks.all fun p => verdict vb va p it) = true := by simpa [verdict] using hc
+        simpa using this
+      have hcnt : cnt (fun j => ks.all (fun p => verdict vb va p j)) (left + 1) it
+          = cnt (fun j => ks1.all (fun p => verdict vb va p j)) left (it + 1) + 1 := by
+        simp only [hP]
+        unfold cnt
+        rw [List.range'_succ, List.find?_cons]
+        simp only [hc']
+        cases hf : (List.range' (it + 1) left).find? (fun j => ks.all (fun p => verdict vb va p j)) with
+        | none => rfl
+        | some j =>
+          have hm := List.mem_of_find?_eq_some hf
+          rw [List.mem_range'_1] at hm
+          simp only []
+          omega
+      simp [hcnt]
+
+
+private theorem cnt_zero (P : Nat → Bool) (cap : Nat) : cnt P cap 0 = roundsSpec cap P := by
+  unfold cnt roundsSpec
+  simp only [List.range_eq_range']
+  cases (List.range' 0 cap).find? P <;> simp
+
+/-- `roundsSpec cap P` = min(cap, 1 + least iteration at which `P` holds) -/
+theorem roundsSpec_spec (cap : Nat) (P : Nat → Bool) :
+    (∃ it, it < cap ∧ P it = true ∧ (∀ j, j < it → P j = false) ∧ roundsSpec cap P = it + 1)
+    ∨ ((∀ j, j < cap → P j = false) ∧ roundsSpec cap P = cap) := by
+  unfold roundsSpec
+  cases hf : (List.range cap).find? P with
+  | some it =>
+    left
+    rw [List.find?_range_eq_some] at hf
+    refine ⟨it, by simpa using hf.2.1, hf.1, ?_, rfl⟩
+    intro j hj
+    simpa using hf.2.2 j hj
+  | none =>
+    right
+    rw [List.find?_range_eq_none] at hf
+    exact ⟨fun j hj => by simpa using hf j hj, rfl⟩
+
+theorem roundsSpec_le_cap (cap : Nat) (P : Nat → Bool) : roundsSpec cap P ≤ cap := by
+  rcases roundsSpec_spec cap P with ⟨it, h1, _, _, h4⟩ | ⟨_, h⟩ <;> omega
+
+/-- **per-coupler `maxIters` never cuts the operator's loop short**: whatever `maxIters` and counter each
+coupled interface's own `TightCoupler` carries, `_performTightCoupling` runs exactly
+`min(tightCouplingMaxNumIters, 1 + first round in which every coupler's |after − before| is below its tolerance)`
+rounds (a coupler's own `maxIters` only decides whether ITS warning is issued) -/
+theorem coupling_rounds_any_coupler_maxIters (vb va : Nat → Nat → Rat) (cap : Nat) (ks : List (Nat × Coupler)) :
+    ∃ w ks', coupledLoopS vb va cap 0 ks = some (roundsSpec cap (fun j => ks.all (fun p => verdict vb va p j)), w, ks') := by
+  obtain ⟨w, ks', h, _⟩ := coupledLoopS_rounds vb va cap 0 ks
+  exact ⟨w, ks', by rw [h, cnt_zero]⟩
+
+/-- two coupler lists that differ only in their own `maxIters` / counters / stored values run the same number of rounds -/
+theorem coupling_rounds_congr (vb va : Nat → Nat → Rat) (cap : Nat) (ks ks2 : List (Nat × Coupler))
+    (h : ks.map (fun p => (p.1, p.2.tol)) = ks2.map (fun p => (p.1, p.2.tol))) :
+    (coupledLoopS vb va cap 0 ks).map (·.1) = (coupledLoopS vb va cap 0 ks2).map (·.1) := by
+  obtain ⟨w, k', h1⟩ := coupling_rounds_any_coupler_maxIters vb va cap ks
+  obtain ⟨w2, k2', h2⟩ := coupling_rounds_any_coupler_maxIters vb va cap ks2
+  rw [h1, h2]
+  have e : ∀ (l : List (Nat × Coupler)) j, (l.all fun p => verdict vb va p j)
+      = ((l.map (fun p => (p.1, p.2.tol))).all (fun q => decide (absDiff (va q.1 j) (vb q.1 j) < q.2))) := by
+    intro l j; simp [List.all_map, verdict, Function.comp_def]
+  simp only [Option.map_some, e, h]
+
+/-- `itersAt` (the count in the declarative schedule `spec`, hence in `run`) is `roundsSpec` of the run's cap
+and the all-converged predicate -/
+theorem itersAt_eq_roundsSpec (cfg : Config) (c n : Nat) :
+    itersAt cfg c n = roundsSpec cfg.maxIters (fun it => converged cfg (active cfg .Coupled [] 0) ⟨c, n⟩ it) := rfl
+
+/-- **the abstract `conv` of the schedule model is realised by real couplers**: if `cfg.conv` at node (c, n) is
+the verdict |after − before| < tolerance of the values, and `ks` are the couplers (any own `maxIters`, any
+counter) of the active coupled interfaces in stack order, then the loop with the couplers' state runs exactly
+the `itersAt cfg c n` rounds of the schedule -/
+theorem coupling_rounds_with_couplers (cfg : Config) (tol : Nat → Rat) (vb va : Nat → Nat → Rat) (c n : Nat)
+    (hconv : ∀ i it, cfg.conv i c n it = decide (absDiff (va i it) (vb i it) < tol i))
+    (ks : List (Nat × Coupler))
+    (hks : ks.map (fun p => (p.1, p.2.tol))
+      = ((active cfg .Coupled [] 0).filter (·.hasCoupler)).map (fun i => (i.name, tol i.name))) :
+    ∃ w ks', coupledLoopS vb va cfg.maxIters 0 ks = some (itersAt cfg c n, w, ks') := by
+  obtain ⟨w, ks', h⟩ := coupling_rounds_any_coupler_maxIters vb va cfg.maxIters ks
+  refine ⟨w, ks', ?_⟩
+  rw [h, itersAt_eq_roundsSpec]
+  have hP : (fun j => ks.all fun p => verdict vb va p j)
+      = (fun it => converged cfg (active cfg .Coupled [] 0) ⟨c, n⟩ it) := by
+    funext it
+    have e : (ks.all fun p => verdict vb va p it)
+        = ((ks.map (fun p => (p.1, p.2.tol))).all (fun q => decide (absDiff (va q.1 it) (vb q.1 it) < q.2))) := by
+      simp [List.all_map, verdict, Function.comp_def]
+    rw [e, hks]
+    simp [converged, List.all_map, Function.comp_def, hconv]
+  rw [hP]
+
+example : coupledLoopS (fun _ it => it) (fun n it => if n = 1 ∧ it < 3 then it + 1 else it) 6 0
+    [(1, ⟨1/2, 1, 0, none⟩), (2, ⟨1/2, 2, 0, none⟩)] = some (4, 3, [(1, ⟨1/2, 1, 0, some 3⟩), (2, ⟨1/2, 2, 0, some 3⟩)]) := by decide +kernel
+
 /-! ## Node arithmetic -/
 
 private theorem nodeOfCumLoop_left (l : List Nat) (i acc c n : Nat) (hc : c < l.length) (hn : n < l[c]) :
@@ -930,6 +1096,89 @@ theorem steps_cumulative_sum (prev : Rat) (cum : List Rat) :
     cases rest.getLast? <;> simp
 
 example : (stepLengthsSimple [10, 20] [1/2, 1] 2).map List.length = [2, 2] := by decide
+
+/-! ### the repeat notation of the cycle inputs (`expandRepeatedFloats`) -/
+
+/-- how many entries an item contributes -/
+def RItem.weight : RItem → Nat
+  | .val _ => 1
+  | .rep n => n
+
+/-- **length**: the expansion has one entry per number plus n per `nR` (for step days: the cycle's burn steps) -/
+theorem expandLoop_length (l : List RItem) (acc r : List Rat) (h : expandLoop l acc = some r) :
+    r.length = acc.length + (l.map RItem.weight).sum := by
+  induction l generalizing acc with
+  | nil => simp [expandLoop] at h; subst h; simp
+  | cons a rest ih =>
+    cases a with
+    | val v =>
+      simp only [expandLoop] at h
+      rw [ih _ h]; simp [RItem.weight]; omega
+    | rep n =>
+      simp only [expandLoop] at h
+      cases hl : acc.getLast? with
+      | none => rw [hl] at h; simp at h
+      | some x =>
+        rw [hl] at h
+        simp only [] at h
+        rw [ih _ h]; simp [RItem.weight]; omega
+
+theorem expand_length (l : List RItem) (r : List Rat) (h : expandRepeated l = some r) :
+    r.length = (l.map RItem.weight).sum := by
+  have := expandLoop_length l [] r h
+  simpa using this
+
+/-- a list without repeats expands to itself -/
+theorem expand_plain (vs : List Rat) : expandRepeated (vs.map RItem.val) = some vs := by
+  suffices ∀ acc, expandLoop (vs.map RItem.val) acc = some (acc ++ vs) by simpa [expandRepeated] using this []
+  induction vs with
+  | nil => intro acc; simp [expandLoop]
+  | cons v rest ih => intro acc; simp [expandLoop, ih]
+
+/-- a number followed by `nR` stands for n + 1 copies of it -/
+theorem expand_val_rep (v : Rat) (n : Nat) (rest : List RItem) (acc : List Rat) :
+    expandLoop (.val v :: .rep n :: rest) acc = expandLoop rest (acc ++ List.replicate (n + 1) v) := by
+  simp [expandLoop, List.replicate_succ]
+
+/-- a repeat right after a repeat keeps repeating the same value -/
+theorem expand_rep_rep (v : Rat) (n m : Nat) (rest : List RItem) (acc : List Rat) :
+    expandLoop (.rep m :: rest) (acc ++ List.replicate (n + 1) v)
+      = expandLoop rest (acc ++ List.replicate (n + 1 + m) v) := by
+  have hl : (acc ++ List.replicate (n + 1) v).getLast? = some v := by
+    rw [List.replicate_succ', ← List.append_assoc]; simp
+  simp only [expandLoop, hl, List.append_assoc, List.replicate_append_replicate]
+
+/-- refused exactly when the list starts with a repeat (nothing to repeat) -/
+theorem expand_reject (l : List RItem) : expandRepeated l = none ↔ ∃ n rest, l = .rep n :: rest := by
+  have hne : ∀ (l : List RItem) (acc : List Rat), acc ≠ [] → (expandLoop l acc).isSome := by
+    intro l
+    induction l with
+    | nil => intro acc _; simp [expandLoop]
+    | cons a rest ih =>
+      intro acc hacc
+      cases a with
+      | val v => simp only [expandLoop]; exact ih _ (by simp)
+      | rep n =>
+        simp only [expandLoop]
+        cases hl : acc.getLast? with
+        | none => simp [List.getLast?_eq_none_iff] at hl; exact absurd hl hacc
+        | some x => simp only []; exact ih _ (by simp [hacc])
+  constructor
+  · intro h
+    cases l with
+    | nil => simp [expandRepeated, expandLoop] at h
+    | cons a rest =>
+      cases a with
+      | val v =>
+        have := hne rest ([] ++ [v]) (by simp)
+        simp only [expandRepeated, expandLoop] at h
+        rw [h] at this; simp at this
+      | rep n => exact ⟨n, rest, rfl⟩
+  · rintro ⟨n, rest, rfl⟩
+    simp [expandRepeated, expandLoop]
+
+example : expandRepeated [.val 150, .val 200, .rep 9] = some (150 :: List.replicate 10 200) := by decide
+
 
 end ArmiVerif.Schedule
 
